@@ -19,6 +19,8 @@ CONSTANTS
   DamageKinds = {}
   CrcQuarantinesBlock = FALSE
   MinOpsBeforeCrash = 0
+  WithPersistCalls = FALSE
+  WithNoops = FALSE
 INIT MCInit
 NEXT MCNext
 INVARIANTS VerdictOk
